@@ -76,6 +76,26 @@ def flat_fields(t):
     return (flat_fields(t['base']) if t.get('hasbase') else []) + list(t['fields'])
 
 
+def runtime(t, v):
+    """the class of an object value: the declared type or the registered subclass it names"""
+    if t['k'] == 'obj' and isinstance(v, list) and len(v) == 3 and v[0] == 'obj' and v[1] != t['name']:
+        for s in t.get('subs') or []:
+            if s['name'] == v[1]:
+                return s
+    return t
+
+
+def register_subs(gen, t):
+    """subclasses exist (and are known to their base) before the interface is built"""
+    if t['k'] in ('arr', 'attr'):
+        return register_subs(gen, t['of'])
+    if t['k'] == 'obj':
+        for s in t.get('subs') or []:
+            gen.cls(texpr(s))
+        for f in flat_fields(t):
+            register_subs(gen, f['t'])
+
+
 def to_wire_value(t, v):
     """TLA value -> the native tree enc.py takes (dict for objects, list for sequences)"""
     if v == ['nil']:
@@ -90,7 +110,11 @@ def to_wire_value(t, v):
     if k == 'arr':
         return [to_wire_value(t['of'], x) for x in v[1]]
     if k == 'obj':
-        return {f['n']: to_wire_value(f['t'], x) for f, x in zip(flat_fields(t), v[2])}
+        rt = runtime(t, v)
+        d = {f['n']: to_wire_value(f['t'], x) for f, x in zip(flat_fields(rt), v[2])}
+        if rt is not t:
+            d['__rt__'] = texpr(rt)          # a subclass instance where the base is declared (xsi:type)
+        return d
     raise ValueError(t)
 
 
@@ -109,8 +133,9 @@ def to_instance(gen, t, v, texp=None):
     if k == 'arr':
         return [to_instance(gen, t['of'], x) for x in v[1]]
     if k == 'obj':
-        cls = gen.cls(texpr(t))
-        return cls(**{f['n']: to_instance(gen, f['t'], x) for f, x in zip(flat_fields(t), v[2])})
+        rt = runtime(t, v)
+        cls = gen.cls(texpr(rt))
+        return cls(**{f['n']: to_instance(gen, f['t'], x) for f, x in zip(flat_fields(rt), v[2])})
     raise ValueError(t)
 
 
@@ -136,7 +161,8 @@ def from_native(t, x, repeated=False):
     if k == 'obj':
         name = type(x).get_type_name() if hasattr(type(x), 'get_type_name') else type(x).__name__
         vals = []
-        for f in flat_fields(t):
+        rt = next((s for s in t.get('subs') or [] if s['name'] == name), t)
+        for f in flat_fields(rt):
             y = getattr(x, f['n'], None) if not isinstance(x, dict) else x.get(f['n'])
             vals.append(from_native(f['t'], y, repeated=f['max'] > 1))
         return ['obj', name, vals]
@@ -190,7 +216,11 @@ def to_raw_value(t, v):
     if k == 'arr':
         return [to_raw_value(t['of'], x) for x in v[1]]
     if k == 'obj':
-        return {f['n']: to_raw_value(f['t'], x) for f, x in zip(flat_fields(t), v[2])}
+        rt = runtime(t, v)
+        d = {f['n']: to_raw_value(f['t'], x) for f, x in zip(flat_fields(rt), v[2])}
+        if rt is not t:
+            d['__rt__'] = texpr(rt)
+        return d
     raise ValueError(t)
 
 
